@@ -88,3 +88,33 @@ def grid2(tier):
                                    {"t": off, "node": "B", "op": "start", "ca": 1, "delay": 0}]
                             out.append({"dll": "j1939-21", "nodes": nodes, "ops": ops, "dur": 3_000_000, "expect": {"settled": True}})
     return out
+
+
+ORDER = ["identity_number", "manufacturer_code", "ecu_instance", "function_instance", "function", "vehicle_system",
+         "vehicle_system_instance", "industry_group"]          # least significant field first
+
+
+def bitwalk(tier):
+    """two CAs whose NAMEs (built from FIELDS, as applications do) differ at one bit j of one field: that field
+    = 2^j against that field = 2^j - 1 with all lower fields at their maximum - the order of the two 64-bit values is
+    decided by exactly that bit.  Every bit of every field; the received claim is parsed from its 8 bytes."""
+    out = []
+    for fi, f in enumerate(ORDER):
+        for j in range(WIDTH[f]):
+            hi = {f: 1 << j}
+            lo = {f: (1 << j) - 1}
+            for g in ORDER[:fi]:
+                lo[g] = (1 << WIDTH[g]) - 1
+            if lo == {f: 0} and j == 0 and fi == 0:
+                lo = {f: 0}
+            swaps = (False, True) if tier != "quick" else ((j + fi) % 2 == 0,)
+            for swap in swaps:
+                n1, n2 = (hi, lo) if not swap else (lo, hi)
+                nodes = [{"name": "A", "lat": 1000, "cas": [{"pref": 130, "aac": 0, "name": dict(n1)}]},
+                         {"name": "B", "lat": 1000, "cas": [{"pref": 130, "aac": 0, "name": dict(n2)}]}]
+                for nd in nodes:
+                    nd["cas"][0]["name"].setdefault("identity_number", 0)
+                ops = [{"t": 0, "node": "A", "op": "start", "ca": 1, "delay": 0},
+                       {"t": 500, "node": "B", "op": "start", "ca": 1, "delay": 0}]      # both claims cross on the bus
+                out.append({"dll": "j1939-21", "nodes": nodes, "ops": ops, "dur": 2_500_000, "expect": {"settled": True}})
+    return out
